@@ -387,6 +387,7 @@ pub fn job_lite(d: &JobDetail) -> JobLite {
             .map(|(id, info)| (id.as_num(), task_state_lite(&info.state)))
             .collect(),
         completed: false,
+        status: String::new(),
     }
 }
 
